@@ -382,6 +382,13 @@ def run_case(case, ctx):
             warr = (0.3 + x) ** float(rng.uniform(0.5, 2.5)) * float(rng.uniform(0.2, 3.0))
         else:
             warr = rng.uniform(0.2, 3.0, n) * (1 + x)  # positive, per observation
+        # shapes of weight arrays other than "growing with x": both tails down-weighted, a few integer classes
+        wshape = int(case["sub"]) % 3
+        if wshape:
+            uq = np.unique(x)
+            r = np.searchsorted(uq, x) / max(len(uq) - 1, 1)
+            warr = (0.2 + np.sin(math.pi * r)) * 1.7 if wshape == 1 else np.array([1.0, 3.0, 2.0, 3.0, 1.0])[np.minimum((r * 5).astype(int), 4)]
+            ctx.cls("weight-array", ["growing", "tapered-tails", "integer-classes"][wshape])
     w_in = warr if wspec == "array" else wspec
     kw = {} if case["delta"] is None else {"f_delta": case["delta"]}
     method = case["method"]
